@@ -14,10 +14,10 @@ theorem publish_snd (s : State) (now : Nat) :
     (publish s now).2 = { id := s.fdtid, time := now, inst := instanceAt s now } := rfl
 
 theorem tryPublish_cases (s : State) (now : Nat) :
-    (s.cfg.fdtFits (instanceAt s now) = false ∧ tryPublish s now = (s, [])) ∨
-    (s.cfg.fdtFits (instanceAt s now) = true ∧ tryPublish s now = ((publish s now).1, [(publish s now).2])) := by
+    (admitted s now = false ∧ tryPublish s now = (s, [])) ∨
+    (admitted s now = true ∧ tryPublish s now = ((publish s now).1, [(publish s now).2])) := by
   unfold tryPublish
-  cases h : s.cfg.fdtFits (instanceAt s now) <;> simp
+  cases h : admitted s now <;> simp
 
 theorem tryPublish_cfg (s : State) (now : Nat) : (tryPublish s now).1.cfg = s.cfg := by
   rcases tryPublish_cases s now with ⟨_, h⟩ | ⟨_, h⟩ <;> rw [h] <;> rfl
@@ -267,7 +267,7 @@ theorem step_nopub_queue (s : State) (op : Op) (h : (step s op).2.1 = []) :
 /-- with `fdt_duration > 30 s`: once more polls of the idle FDT session come later than `last publish + duration - 5 s`
     than there are instances waiting in the queue, a successor has been published -/
 theorem supersede_core (s : State) (T : Nat) (hd : s.cfg.durationUs > 30000000) (hT : s.lastPublish = some T)
-    (hadm : ∀ i, s.cfg.fdtFits i = true) (ops : List Op) (h : s.queue.length < (ops.filter (isDuePoll s.cfg T)).length) : (run s ops).2 ≠ [] := by
+    (hadm : ∀ s' : State, s'.cfg = s.cfg → ∀ now, admitted s' now = true) (ops : List Op) (h : s.queue.length < (ops.filter (isDuePoll s.cfg T)).length) : (run s ops).2 ≠ [] := by
   induction ops generalizing s with
   | nil => simp at h
   | cons op ops ih =>
@@ -275,7 +275,8 @@ theorem supersede_core (s : State) (T : Nat) (hd : s.cfg.durationUs > 30000000) 
     rcases step_pubs s op with ⟨h0, _, hlp⟩ | ⟨q, hq, _⟩
     · rw [h0, List.nil_append]
       have hcfg := step_cfg s op
-      apply ih (step s op).1 (by rw [hcfg]; exact hd) (by rw [hlp]; exact hT) (by rw [hcfg]; exact hadm)
+      apply ih (step s op).1 (by rw [hcfg]; exact hd) (by rw [hlp]; exact hT)
+        (by intro s' hs' now; exact hadm s' (hs'.trans hcfg) now)
       rw [hcfg]
       have hql := step_nopub_queue s op h0
       simp only [List.filter_cons] at h
@@ -289,7 +290,7 @@ theorem supersede_core (s : State) (T : Nat) (hd : s.cfg.durationUs > 30000000) 
             intro hq
             have hdue' : T + s.cfg.durationUs - 5000000 < t := by simpa [isDuePoll] using hdue
             have := needRepublish_due s T t hq hT hd hdue'
-            simp [step, poll, this, tryPublish, hadm] at h0
+            simp [step, poll, this, tryPublish, hadm s rfl] at h0
           have : s.queue.length ≠ 0 := by
             intro hz; exact hne (List.eq_nil_of_length_eq_zero hz)
           omega
@@ -1059,6 +1060,146 @@ theorem step_pub_inst (s : State) (op : Op) (p : Pub) (hp : p ∈ (step s op).2.
       exact tryPublish_inst s now p hp
     · simp [h] at hp
 
+/-! ### a published instance is, as a whole record, the instance of the state right after its operation -/
+
+theorem inst_congr (s s' : State) (t : Nat) (hc : s.cfg = s'.cfg) (hk : s.complete = s'.complete)
+    (hf : s.files = s'.files) : instanceAt s t = instanceAt s' t := by
+  unfold instanceAt listedFiles
+  simp only [hc, hk, hf]
+
+theorem tryPublish_complete (s : State) (now : Nat) : (tryPublish s now).1.complete = s.complete := by
+  rcases tryPublish_cases s now with ⟨_, h⟩ | ⟨_, h⟩ <;> rw [h] <;> rfl
+
+theorem tryPublish_whole (s : State) (now : Nat) (p : Pub) (hp : p ∈ (tryPublish s now).2) :
+    p.inst = instanceAt (tryPublish s now).1 p.time ∧ admitted s now = true := by
+  rcases tryPublish_cases s now with ⟨_, h⟩ | ⟨ha, h⟩
+  · rw [h] at hp; simp at hp
+  · refine ⟨?_, ha⟩
+    rw [tryPublish_mem s now p hp]
+    exact inst_congr _ _ now (tryPublish_cfg s now).symm (tryPublish_complete s now).symm (tryPublish_files s now).symm
+
+theorem popQueue_inst (s : State) (t : Nat) : instanceAt (popQueue s) t = instanceAt s t :=
+  inst_congr _ _ t (popQueue_cfg s) (popQueue_complete s) (popQueue_files s)
+
+theorem admitted_groups (s : State) (now : Nat) (h : admitted s now = true) :
+    (s.cfg.groups.getD []).all s.cfg.xmlOk = true := by
+  unfold admitted at h
+  simp only [Bool.and_eq_true] at h
+  exact h.1
+
+theorem step_pub_whole (s : State) (op : Op) (p : Pub) (hp : p ∈ (step s op).2.1) :
+    p.inst = instanceAt (step s op).1 p.time ∧ (s.cfg.groups.getD []).all s.cfg.xmlOk = true := by
+  cases op with
+  | add a => simp [step] at hp
+  | remove t => simp [step] at hp
+  | publish now =>
+    simp only [step] at hp ⊢
+    exact ⟨(tryPublish_whole s now p hp).1, admitted_groups s now (tryPublish_whole s now p hp).2⟩
+  | setComplete => simp [step] at hp
+  | tstart t now =>
+    simp only [step, tstart] at hp ⊢
+    split at hp
+    · rename_i hany
+      simp only [hany, if_true]
+      cases hm : s.cfg.mode with
+      | beingTransferred =>
+        simp only [hm] at hp ⊢
+        exact ⟨(tryPublish_whole _ now p hp).1,
+          admitted_groups { s with files := s.files.map (fStart t) } now (tryPublish_whole _ now p hp).2⟩
+      | fullFdt => simp [hm] at hp
+    · simp at hp
+  | tdone t now => simp [step] at hp
+  | poll now =>
+    simp only [step, poll] at hp ⊢
+    by_cases h : needRepublish s now = true
+    · simp only [h, if_true] at hp ⊢
+      rw [popQueue_inst]
+      exact ⟨(tryPublish_whole s now p hp).1, admitted_groups s now (tryPublish_whole s now p hp).2⟩
+    · simp [h] at hp
+
+theorem run_pub_whole (s : State) (ops : List Op) (p : Pub) (hp : p ∈ (run s ops).2) :
+    ∃ pre op post, ops = pre ++ op :: post ∧ p ∈ (step (run s pre).1 op).2.1 ∧
+      p.inst = instanceAt (run s (pre ++ [op])).1 p.time := by
+  induction ops generalizing s with
+  | nil => simp [run] at hp
+  | cons op ops ih =>
+    simp only [run, List.mem_append] at hp
+    rcases hp with hp | hp
+    · exact ⟨[], op, ops, rfl, hp, by simpa [run] using (step_pub_whole s op p hp).1⟩
+    · rcases ih _ hp with ⟨pre, op', post, rfl, h1, h2⟩
+      exact ⟨op :: pre, op', post, rfl, by simpa [run] using h1, by simpa [run] using h2⟩
+
+/-! ### every metadata string of a live file is an XML 1.0 string -/
+
+def XmlInv (s : State) : Prop := ∀ f ∈ s.files, attrsXmlOk s.cfg.xmlOk f.attrs = true
+
+theorem step_xmlInv (s : State) (op : Op) (h : XmlInv s) : XmlInv (step s op).1 := by
+  intro f hf
+  rw [step_cfg]
+  cases op with
+  | add a =>
+    simp only [step, add] at hf
+    split at hf
+    · exact h f hf
+    · rename_i hcond
+      split at hf
+      · exact h f hf
+      · exact h f hf
+      · simp only [List.mem_append, List.mem_singleton] at hf
+        rcases hf with hf | rfl
+        · exact h f hf
+        · cases hx : attrsXmlOk s.cfg.xmlOk a with
+          | true => rfl
+          | false => exact absurd (.inr hx) hcond
+  | remove t =>
+    simp only [step, remove] at hf
+    split at hf
+    · exact h f (List.mem_filter.mp hf).1
+    · exact h f hf
+  | publish now =>
+    simp only [step] at hf
+    rw [tryPublish_files] at hf
+    exact h f hf
+  | setComplete => exact h f hf
+  | tstart t now =>
+    simp only [step] at hf
+    rw [tstart_files] at hf
+    split at hf
+    · simp only [List.mem_map] at hf
+      rcases hf with ⟨f0, hf0, rfl⟩
+      have := h f0 hf0
+      unfold fStart
+      split <;> exact this
+    · exact h f hf
+  | tdone t now =>
+    simp only [step, tdone, List.mem_filterMap] at hf
+    rcases hf with ⟨f0, hf0, hfd⟩
+    have := h f0 hf0
+    unfold fDone at hfd
+    split at hfd
+    · split at hfd
+      · cases hfd
+      · cases hfd; exact this
+    · cases hfd; exact this
+  | poll now =>
+    simp only [step] at hf
+    rw [poll_files] at hf
+    exact h f hf
+
+theorem run_xmlInv (s : State) (ops : List Op) (h : XmlInv s) : XmlInv (run s ops).1 := by
+  induction ops generalizing s with
+  | nil => exact h
+  | cons op ops ih => exact ih _ (step_xmlInv s op h)
+
+theorem trace_prefix (s : State) (a b : List Op) (e : Op × Res) (h : e ∈ trace s a) : e ∈ trace s (a ++ b) := by
+  induction a generalizing s with
+  | nil => simp [trace] at h
+  | cons op a ih =>
+    simp only [List.cons_append, trace, List.mem_cons] at h ⊢
+    rcases h with h | h
+    · exact .inl h
+    · exact .inr (ih _ h)
+
 /-! ### a refused FDT object -/
 
 theorem run_fdtid_nopub (s : State) (ops : List Op) (h : (run s ops).2 = []) : (run s ops).1.fdtid = s.fdtid := by
@@ -1075,17 +1216,18 @@ theorem run_fdtid_nopub (s : State) (ops : List Op) (h : (run s ops).2 = []) : (
 
 
 /-- when the FDT object is never admitted, nothing is ever published: no id is consumed, `last_publish` stays unset -/
-theorem run_never_admitted (s : State) (hadm : ∀ i, s.cfg.fdtFits i = false) (ops : List Op) : (run s ops).2 = [] := by
+theorem run_never_admitted (s : State) (hadm : ∀ s' : State, s'.cfg = s.cfg → ∀ now, admitted s' now = false) (ops : List Op) :
+    (run s ops).2 = [] := by
   induction ops generalizing s with
   | nil => rfl
   | cons op ops ih =>
     simp only [run]
     have hcfg := step_cfg s op
-    rw [ih (step s op).1 (by rw [hcfg]; exact hadm), List.append_nil]
+    rw [ih (step s op).1 (by intro s' hs' now; exact hadm s' (hs'.trans hcfg) now), List.append_nil]
     have htp : ∀ s' : State, s'.cfg = s.cfg → ∀ now, (tryPublish s' now).2 = [] := by
       intro s' hc now
       unfold tryPublish
-      rw [hc, hadm]; rfl
+      rw [hadm s' hc now]; rfl
     cases op with
     | add a => simp [step]
     | remove t => simp [step]
